@@ -432,7 +432,7 @@ def run_c15(ctx):
     ctx.rule = ("real server binary over the documented option space (num_workers 1..16, health port absent/present, batch_size "
                 "{1,2,63,64}, fault {0,1,50}, status_interval {1,10,600}, client_stats off/on with a directory; file and ENV; "
                 "example.cfg with ports remapped): live worker threads, UDP replies, health replies under sequential and burst "
-                "connects, no panic output; a health connection while accept() fails with EMFILE (descriptor limit lowered): time "
+                "connects, no panic output, service and worker count after two SIGSTOP/SIGCONT cycles; a health connection while accept() fails with EMFILE (descriptor limit lowered): time "
                 "service continues on every worker; non-trivial = distinct configuration with >= 2 workers or a health port")
     vlib.prepare(ctx, need_bins=True)
     r = ctx.rng
@@ -478,6 +478,14 @@ def run_c15(ctx):
                 res2 = closed_loop(srv.port, 7, 2, 2)
                 out["answered_after_health"] = sum(1 for _, _, reps, _ in res2 if len(reps) == 1)
                 out["health_after"] = health_probe(srv.health, 3, burst=False)
+            # job control: the process is stopped and continued (SIGSTOP / SIGCONT interrupt every blocking
+            # system call of every worker with EINTR); all workers must still be there and answer afterwards
+            for _ in range(2):
+                os.kill(srv.p.pid, signal.SIGSTOP); time.sleep(0.12)
+                os.kill(srv.p.pid, signal.SIGCONT); time.sleep(0.12)
+            res3 = closed_loop(srv.port, 11, 4, 2)
+            out["answered_after_stop_cont"] = sum(1 for _, _, reps, _ in res3 if len(reps) == 1)
+            out["asked_after_stop_cont"] = len(res3)
             out["alive"] = srv.p.poll() is None
             out["threads_end"] = srv.threads()
         finally:
@@ -503,6 +511,8 @@ def run_c15(ctx):
             ctx.violation("property", "panic output during start-up / service", rep); continue
         if o["answered"] != o["asked"]:
             ctx.violation("property", "time service answered %d of %d requests" % (o["answered"], o["asked"]), rep); continue
+        if o.get("answered_after_stop_cont") != o.get("asked_after_stop_cont"):
+            ctx.violation("property", "after the process was stopped and continued (SIGSTOP/SIGCONT) the time service answered %s of %s requests" % (o.get("answered_after_stop_cont"), o.get("asked_after_stop_cont")), rep); continue
         if "health_check_port" in s:
             if o["health_seq"] != 5 or o["health_burst"] != 20 or o["health_after"] != 3:
                 ctx.violation("property", "health check port answered %d/5 sequential, %d/20 burst, %d/3 later connections" % (o["health_seq"], o["health_burst"], o["health_after"]), rep); continue
